@@ -7,6 +7,7 @@ Newton-incremental route, and compared with TLC's rationals."""
 from __future__ import annotations
 
 import contextlib
+import json
 import io
 from fractions import Fraction
 
@@ -150,6 +151,48 @@ def replay(job):
     return {"viol": viol, "n": n, "keys": keys, "traces": 1}
 
 
+def replay_chain(job):
+    """Constraints.tla, Reset: several condition sets solved one after the other on ONE simulation object (Bc_Init() in between);
+    the solution of every round is the one of that round's conditions alone."""
+    idx, ch = job
+    viol, n = [], 0
+    for mode in ("scipy", "lsq_linear"):
+        sim = make(ch["sys"])
+        sim.solver = mode
+        if mode == "lsq_linear":
+            sim.extra["wide_bounds"] = True
+        done = []
+        for r, rd in enumerate(ch["rounds"]):
+            if mode == "lsq_linear" and not rd["free"]:
+                break
+            exp = np.array([float(fr(q)) for q in rd["x"]])
+            scale = max(1.0, np.abs(exp).max())
+            sim.Bc_Init()
+            k = 0
+            for st in rd["steps"]:
+                if st["op"] == "solve":
+                    break
+                c = st["c"]
+                nodes = np.array(c["nodes"])
+                vals = [value_form(fr(v), (idx + k + r) % 3, len(nodes)) for v in c["vals"]]
+                k += 1
+                (sim.add_dirichlet if st["op"] == "dir" else sim.add_neumann)(nodes, vals, c["unks"])
+            done.append([(s_["op"], s_["c"]["nodes"], s_["c"]["unks"], [str(fr(v)) for v in s_["c"]["vals"]]) for s_ in rd["steps"][:-1]])
+            try:
+                with contextlib.redirect_stdout(io.StringIO()), np.errstate(all="ignore"):
+                    x = sim.Solve()
+            except Exception as ex:
+                viol.append((f"chain-raises/{mode}/{ch['sys']}", f"Solve() of round {r + 1} on the same object raises {type(ex).__name__}: {ex} (rounds {done})", {"chain": ch, "mode": mode}))
+                break
+            n += 1
+            tol = 1e-8 if mode == "lsq_linear" else DIRECT_TOL
+            if not np.all(np.isfinite(x)) or np.abs(x - exp).max() / scale > tol:
+                bad = int(np.argmax(np.abs(x - exp)))
+                viol.append((f"chain/{mode}/{ch['sys']}/{'constrained' if bad in rd['known'] else 'free'}", f"round {r + 1} solved on the object that solved the earlier rounds returns {x}, the stated system of this round has the solution {exp} (rounds {done})", {"chain": ch, "mode": mode}))
+                break
+    return {"viol": viol, "n": n, "keys": [("chain", ch["sys"], len(ch["rounds"]), idx % 16)], "traces": 1}
+
+
 def orphan_under_schemes(ctx):
     """the orphan clause under every time scheme: the chain 0-1-3 with node 2 attached to nothing is stepped with each
     algorithm; it must stay regular (finite values, the orphan dof stays at rest) and the connected dofs must follow the
@@ -213,10 +256,8 @@ def orphan_under_schemes(ctx):
 
 def run(ctx):
     if ctx.replay:
-        import json
-
         case = json.load(open(ctx.replay))["case"]
-        r = replay((0, case["behaviour"]))
+        r = replay_chain((0, case["chain"])) if "chain" in case else replay((0, case["behaviour"]))
         for v in r["viol"]:
             ctx.violation(*v)
         ctx.count(r["n"], distinct_key="replay")
@@ -226,6 +267,13 @@ def run(ctx):
     behs = res.prints.get("BEH", [])
     ctx.pmap(replay, list(enumerate(behs)))
     ctx.section("replay", behaviours=len(behs), modes=MODES, direct_tol=DIRECT_TOL, krylov_tol=KRYLOV_TOL)
+    # rounds: condition sets solved one after the other on the same object (Constraints.tla, Reset)
+    resc = ctx.tlc_must_hold("MC_Constraints", "MC_Constraints_chain.cfg", what="Holds with Reset (two rounds on one object)", timeout=3000)
+    chains = sorted(resc.prints.get("CHAIN", []), key=lambda c: json.dumps(c, sort_keys=True))
+    step = 1 if ctx.thorough else 5
+    chains = [c for i, c in enumerate(chains) if i % step == ctx.seed % step]
+    ctx.pmap(replay_chain, list(enumerate(chains)))
+    ctx.section("rounds_on_one_object", chains=len(chains))
     orphan_under_schemes(ctx)
     # Newton-incremental driver (spec/Newton.tla) and multi-point connections of beam structures (spec/Connections.tla)
     from harness.props import newton_replay, connections_replay, solver_options_replay
